@@ -75,6 +75,32 @@ def _r_c20_sm(f):
         return True
 
 
+@trigger("c20_remote_line_format")
+def _t_c20_remote(f, obs):
+    v = obs.get("vector")
+    return obs.get("kind") == "init" and (v['url_graph_input'] or v['list_of_url_input']) and v['input_format'] in ('tsv_spo', 'turtle_iter') \
+        and obs["outcome"] == "ok" and obs.get("later") == "ValueError"
+
+
+@replayer("c20_remote_line_format")
+def _r_c20_remote(f):
+    import common, tempfile, os
+    from shexer.shaper import Shaper
+    d = tempfile.mkdtemp(prefix="verif_f_")
+    try:
+        path = os.path.join(d, "g.tsv")
+        open(path, "w").write("<http://e/a>\t<http://www.w3.org/1999/02/22-rdf-syntax-ns#type>\t<http://e/C>\n")
+        s = Shaper(url_graph_input="file://" + path, input_format="tsv_spo", all_classes_mode=True)
+        try:
+            s.shex_graph(string_output=True)
+            return False
+        except ValueError as e:
+            return "nsupported" in str(e)
+    finally:
+        import shutil
+        shutil.rmtree(d, ignore_errors=True)
+
+
 @trigger("c20_zip_without_file")
 def _t_c20_zip(f, obs):
     v = obs.get("vector")
